@@ -199,8 +199,10 @@ class Exporter:
     """generates a conformant message stream for one (parser, protocol) pair, remembering which
     templates it has announced (latest definition wins — the RFC rule, not the crate's)."""
 
-    def __init__(self, rng, lossless=False, common=False, simple_ipfix=False):
+    def __init__(self, rng, lossless=False, common=False, simple_ipfix=False, wild=False):
         self.rng = rng
+        self.wild = wild                      # also produce non-conformant shapes (reserved ids, long zero fill)
+        self.dirty = False                    # a non-conformant shape was emitted: the spec oracle no longer applies
         self.v9 = {}       # id -> ("t", template) | ("o", opt template)
         self.ip = {}       # id -> ("t", spec) | ("o", spec)
         self.lossless = lossless
@@ -218,9 +220,15 @@ class Exporter:
             r = rng.random()
             if r < 0.35 or not self.v9:
                 ts = [v9_template(rng, self.new_id(), lossless=self.lossless, common=self.common) for _ in range(rng.choice([1, 1, 2, 3]))]
+                if self.wild and rng.random() < 0.15:
+                    ts.append(v9_template(rng, rng.choice([0, 1, 2, 7, 255]), lossless=True))     # reserved id (non-conformant)
+                    self.dirty = True
                 for t in ts:
                     self.v9[t["id"]] = ("t", t)
-                sets.append({"templates": {"ts": ts, "pad": hx(bytes(rng.choice([0, 0, 0, 2])))}})
+                padn = rng.choice([0, 0, 0, 2]) if not self.wild else rng.choice([0, 0, 2, 4, 4, 8])
+                if padn >= 4:
+                    self.dirty = True
+                sets.append({"templates": {"ts": ts, "pad": hx(bytes(padn))}})
             elif r < 0.45 and allow_opts:
                 ts = [v9_opt_template(rng, self.new_id()) for _ in range(rng.choice([1, 1, 2]))]
                 for t in ts:
@@ -317,11 +325,11 @@ def fam_fixed_protocols(rng):
     return out
 
 
-def fam_stream(rng, n, lossless=False, common=False, simple_ipfix=False, versions=(5, 7, 9, 10), calls=(1, 6)):
+def fam_stream(rng, n, lossless=False, common=False, simple_ipfix=False, versions=(5, 7, 9, 10), calls=(1, 6), wild=False):
     """conformant multi-call histories on one parser, mixing versions"""
     out = []
     for _ in range(n):
-        ex = Exporter(rng, lossless=lossless, common=common, simple_ipfix=simple_ipfix)
+        ex = Exporter(rng, lossless=lossless, common=common, simple_ipfix=simple_ipfix, wild=wild)
         ops = [op_new(0)]
         for _ in range(rng.randrange(calls[0], calls[1] + 1)):
             msgs = []
@@ -335,8 +343,11 @@ def fam_stream(rng, n, lossless=False, common=False, simple_ipfix=False, version
                     msgs.append(ex.v9_msg())
                 else:
                     msgs.append(ex.ip_msg())
-            ops.append(op_parse(0, msgs=msgs))
-        out.append(("stream", ops))
+            o = op_parse(0, msgs=msgs)
+            if ex.dirty:
+                o["nospec"] = True
+            ops.append(o)
+        out.append(("stream-wild" if wild else "stream", ops))
     return out
 
 
@@ -556,11 +567,33 @@ def fam_unknown_template(rng, n):
             data = {"ipfix": {"m": {"exportTime": 2, "seq": 2, "odid": 1, "sets": [{"data": {"id": tid, "recs": recs, "pad": ""}}]}}}
             tmsg = {"ipfix": {"m": {"exportTime": 3, "seq": 3, "odid": 1, "sets": [{"templates": {"ts": [t], "pad": ""}}]}}}
         before = [msg_v5(rng, 1)] if rng.random() < 0.5 else []
+        # the unknown data set is not always the first set of its packet: put a template for ANOTHER id
+        # and/or a decodable data set in front of it
+        if rng.random() < 0.6:
+            other_id = 4242
+            key = "v9" if proto == 9 else "ipfix"
+            if proto == 9:
+                t2 = v9_template(rng, other_id, lossless=True)
+                front = [{"templates": {"ts": [t2], "pad": ""}}]
+                if rng.random() < 0.5:
+                    front.append({"data": {"id": other_id, "recs": [v9_record(rng, t2)], "pad": ""}})
+                m = data["v9"]["m"]
+                m["sets"] = front + m["sets"]
+                m["count"] = len(m["sets"])
+            else:
+                t2 = ip_template(rng, other_id, lossless=True, varlen=False, enterprise=False)
+                front = [{"templates": {"ts": [t2], "pad": ""}}]
+                if rng.random() < 0.5:
+                    front.append({"data": {"id": other_id, "recs": [ip_record(rng, t2["fields"])], "pad": ""}})
+                m = data["ipfix"]["m"]
+                m["sets"] = front + m["sets"]
         o = op_parse(0, msgs=before + [data], want=[])
         o["unknown_id"] = tid
         o["unknown_proto"] = proto
         ops.append(o)
-        ops.append({"op": "assert_unchanged", "a": 0, "key": "C07"})
+        if len((data.get("v9") or data.get("ipfix"))["m"]["sets"]) == 1:
+            # nothing but the unknown data set in the packet: the caches must not move at all
+            ops.append({"op": "assert_unchanged", "a": 0, "key": "C07"})
         # later the template arrives, then the same data decodes normally (C04/C05 oracle on that call)
         ops.append(op_parse(0, msgs=[tmsg], want=[]))
         ops.append(op_parse(0, msgs=[data], want=[]))
